@@ -215,10 +215,12 @@ class StatefulOpaque(OpaqueHyper):
     def __init__(self, name="Wz", dim=3):
         OpaqueHyper.__init__(self, name, dim, with_state=True)
         self.states_seen = []
+        self.extra_seen = []
         self.ntrial = 0
 
-    def gradient(self, x, out=None):
+    def gradient(self, x, *args, out=None, **kw):
         res = OpaqueHyper.gradient(self, x, out=out)
+        self.extra_seen.append(("gradient", tuple(args), dict(kw)))
         self.states_seen.append(("gradient", npmodel.to_obj(np.asarray(x[-1])).copy()))
         self.ntrial += 1
         trial = npmodel.to_obj(np.asarray(x[-1])).copy()
@@ -226,7 +228,8 @@ class StatefulOpaque(OpaqueHyper):
             trial[t] = sym("ztrial%d" % self.ntrial)
         return [res[0], trial]
 
-    def hessian(self, x, out=None):
+    def hessian(self, x, *args, out=None, **kw):
+        self.extra_seen.append(("hessian", tuple(args), dict(kw)))
         self.states_seen.append(("hessian", npmodel.to_obj(np.asarray(x[-1])).copy()))
         return OpaqueHyper.hessian(self, x, out=out)
 
@@ -261,6 +264,15 @@ def run_state_consistency(col, body_kind):
     col.add("C01.O1z", "%s state variables handed to the material" % body_kind,
             "in vector -> matrix -> vector -> matrix every umat.gradient and umat.hessian call receives the committed state variables (not a trial state of an earlier evaluation)",
             not bad and kinds == {"gradient", "hessian"}, "%s: calls with another state: %s" % (method_where(cls, "_matrix"), bad[:4]))
+    # optional material arguments (time step, temperature, ...) reach gradient and hessian alike
+    umat.extra_seen = []
+    ta, tk = sym("t_arg"), sym("t_kw")
+    it.call(it.getattr(asm, "vector"), [fc], dict(args=(ta,), kwargs=dict(dt=tk)))
+    it.call(it.getattr(asm, "matrix"), [fc], dict(args=(ta,), kwargs=dict(dt=tk)))
+    okx = {k for k, _, _ in umat.extra_seen} == {"gradient", "hessian"} and all(
+        len(a) == 1 and a[0] is ta and set(kw) == {"dt"} and kw["dt"] is tk for _, a, kw in umat.extra_seen)
+    col.add("C01.O1z", "%s material arguments" % body_kind, "args and kwargs handed to assemble.vector / assemble.matrix reach umat.gradient and umat.hessian unchanged (the same function is differentiated)",
+            okx, "%s: %s" % (method_where(cls, "_matrix"), [(k, len(a), sorted(kw)) for k, a, kw in umat.extra_seen]))
     now = npmodel.to_obj(np.asarray(it.getattr(res, "statevars")))
     col.add("C01.O1z", "%s committed state untouched by assembly" % body_kind, "assembling vector and matrix does not change results.statevars",
             now.shape == committed.shape and all(is_zero(P(a) - P(b)) for a, b in zip(now.reshape(-1), committed.reshape(-1))))
